@@ -255,18 +255,42 @@ pub fn shard_runs(
                     let rseed = mix(seed, run, 0);
                     cur[shard].1.store(t0.elapsed().as_millis() as u64, Ordering::Relaxed);
                     cur[shard].0.store(run + 1, Ordering::Relaxed);
-                    let pc0 = crate::mem::panic_count();
-                    let out = match std::panic::catch_unwind(std::panic::AssertUnwindSafe(|| f(run, rseed))) {
-                        Ok(o) => o,
-                        Err(_) => {
-                            // a panic on the shard's main thread (harness or code under test polled by block_on)
-                            let mut o = RunOut::default();
-                            let ps = crate::mem::panics_since("", pc0);
-                            let d = ps.last().map(|p| format!("{} at {}", p.message, p.location)).unwrap_or_default();
-                            o.viol(format!("{}:panic-on-run-thread", "RUN"), format!("run {run} (seed {rseed}) panicked: {d}"), serde_json::json!({"run": run, "seed": rseed, "panic": d}));
-                            o
+                    let exec = |run: u64, rseed: u64| -> RunOut {
+                        let pc0 = crate::mem::panic_count();
+                        match std::panic::catch_unwind(std::panic::AssertUnwindSafe(|| f(run, rseed))) {
+                            Ok(o) => o,
+                            Err(_) => {
+                                // a panic on the shard's main thread (harness or code under test polled by block_on)
+                                let mut o = RunOut::default();
+                                let ps = crate::mem::panics_since("", pc0);
+                                let d = ps.last().map(|p| format!("{} at {}", p.message, p.location)).unwrap_or_default();
+                                o.viol(format!("{}:panic-on-run-thread", "RUN"), format!("run {run} (seed {rseed}) panicked: {d}"), serde_json::json!({"run": run, "seed": rseed, "panic": d}));
+                                o
+                            }
                         }
                     };
+                    crate::clock::REALTIME_USED.with(|f| f.set(false));
+                    let mut out = exec(run, rseed);
+                    // A run that took a quiescence decision on the real-time path (helper threads alive) is not a
+                    // deterministic function of its seed: its verdict depends on OS scheduling. A violation
+                    // reported by such a run is re-examined by executing the same run twice more; it counts only
+                    // if it shows again (same signature). Otherwise it is recorded as an unconfirmed observation
+                    // (inconclusive), never as a violation.
+                    if !out.viols.is_empty() && crate::clock::REALTIME_USED.with(|f| f.get()) && only_run.is_none() {
+                        let mut again: std::collections::HashSet<String> = std::collections::HashSet::new();
+                        for _ in 0..2 {
+                            let o2 = exec(run, rseed);
+                            for v in &o2.viols {
+                                again.insert(v.signature.clone());
+                            }
+                        }
+                        let (kept, dropped): (Vec<Viol>, Vec<Viol>) = out.viols.drain(..).partition(|v| again.contains(&v.signature));
+                        out.viols = kept;
+                        if !dropped.is_empty() {
+                            let sigs: Vec<String> = dropped.iter().map(|v| v.signature.clone()).collect();
+                            out.inconclusive = Some(format!("violation(s) {sigs:?} of a run whose quiescence was decided on the real-time path did not show again in two re-executions of the same run (seed {rseed}): {}", dropped[0].detail.chars().take(200).collect::<String>()));
+                        }
+                    }
                     cur[shard].0.store(0, Ordering::Relaxed);
                     if tx.send((shard, Some((run, rseed, out)))).is_err() {
                         break;
